@@ -206,7 +206,8 @@ func (u *Universe) NormalizeAll() error {
 		if !u.IsRepoFunc(fn) || len(fn.Blocks) == 0 {
 			continue
 		}
-		if ThreadJumps(fn) > 0 {
+		fwd := ForwardCellLoads(fn)
+		if ThreadJumps(fn) > 0 || fwd > 0 {
 			if err := checkFunction(fn); err != nil {
 				return fmt.Errorf("%s: %v", fn, err)
 			}
